@@ -418,9 +418,16 @@ func (vC09ExecResult) ExitCode() int { return 0 }
 
 type vC09Cluster struct{ rec *vC09Rec }
 
+// vC09Tag marks everything a stub returns with the lease it was asked about,
+// so that a client can tell whose lease its response was derived from.
+func vC09Tag(id mtypes.LeaseID) string {
+	return fmt.Sprintf("verif-lease-tag:%s/%d/%d/%d/%s;", id.Owner, id.DSeq, id.GSeq, id.OSeq, id.Provider)
+}
+
 func (c *vC09Cluster) LeaseStatus(_ context.Context, id mtypes.LeaseID) (*vclustertypes.LeaseStatus, error) {
 	c.rec.lease("LeaseStatus", id, "")
-	return &vclustertypes.LeaseStatus{}, nil
+	tag := vC09Tag(id)
+	return &vclustertypes.LeaseStatus{Services: map[string]*vclustertypes.ServiceStatus{tag: {Name: tag}}}, nil
 }
 
 func (c *vC09Cluster) LeaseEvents(_ context.Context, id mtypes.LeaseID, svc string, _ bool) (vclustertypes.EventsWatcher, error) {
@@ -430,12 +437,13 @@ func (c *vC09Cluster) LeaseEvents(_ context.Context, id mtypes.LeaseID, svc stri
 
 func (c *vC09Cluster) LeaseLogs(_ context.Context, id mtypes.LeaseID, svc string, _ bool, _ *int64) ([]*vclustertypes.ServiceLog, error) {
 	c.rec.lease("LeaseLogs", id, svc)
-	return nil, nil
+	stream := ioutil.NopCloser(strings.NewReader(vC09Tag(id) + "\n"))
+	return []*vclustertypes.ServiceLog{{Name: "web", Stream: stream, Scanner: bufio.NewScanner(stream)}}, nil
 }
 
 func (c *vC09Cluster) ServiceStatus(_ context.Context, id mtypes.LeaseID, svc string) (*vclustertypes.ServiceStatus, error) {
 	c.rec.lease("ServiceStatus", id, svc)
-	return &vclustertypes.ServiceStatus{Name: svc}, nil
+	return &vclustertypes.ServiceStatus{Name: vC09Tag(id)}, nil
 }
 
 func (c *vC09Cluster) Deploy(_ context.Context, id mtypes.LeaseID, _ *manifest.Group) error {
@@ -511,6 +519,7 @@ type vC09Obs struct {
 	Status  int
 	Err     string
 	TLS13   bool
+	Body    string // first 16 KiB of the response body / websocket stream
 }
 
 func vC09Do(addr string, chain [][]byte, key *ecdsa.PrivateKey, rq vC09Req) vC09Obs {
@@ -584,15 +593,19 @@ func vC09Do(addr string, chain [][]byte, key *ecdsa.PrivateKey, rq vC09Req) vC09
 	if resp.StatusCode == http.StatusSwitchingProtocols {
 		// the handler calls its stub after the upgrade and closes the
 		// connection when done: wait for that
-		if _, err := io.Copy(ioutil.Discard, br); err != nil {
+		var keep bytes.Buffer
+		if _, err := io.Copy(&vC09Head{b: &keep, max: 16 << 10}, br); err != nil {
 			if ne, ok := err.(net.Error); ok && ne.Timeout() {
 				obs.Outcome = "timeout"
 				obs.Err = err.Error()
 			}
 		}
+		obs.Body = keep.String()
 		return obs
 	}
-	_, err = io.Copy(ioutil.Discard, io.LimitReader(resp.Body, 1<<20))
+	var keep bytes.Buffer
+	_, err = io.Copy(&vC09Head{b: &keep, max: 16 << 10}, io.LimitReader(resp.Body, 1<<20))
+	obs.Body = keep.String()
 	_ = resp.Body.Close()
 	if err != nil {
 		if ne, ok := err.(net.Error); ok && ne.Timeout() {
@@ -601,4 +614,21 @@ func vC09Do(addr string, chain [][]byte, key *ecdsa.PrivateKey, rq vC09Req) vC09
 		}
 	}
 	return obs
+}
+
+// vC09Head keeps the first max bytes written to it and discards the rest.
+type vC09Head struct {
+	b   *bytes.Buffer
+	max int
+}
+
+func (h *vC09Head) Write(p []byte) (int, error) {
+	if room := h.max - h.b.Len(); room > 0 {
+		if len(p) <= room {
+			h.b.Write(p)
+		} else {
+			h.b.Write(p[:room])
+		}
+	}
+	return len(p), nil
 }
